@@ -180,13 +180,29 @@ def draw_abs_date(dec):
     return y, m, 1 + dec.choice('day', calendar.monthrange(y, m)[1])
 
 
+def ordinal_local(culture, d):
+    """The culture's written ordinal form of a day of the month (used by the '{DordC}' layout field)."""
+    lang = culture.split('-')[0]
+    if lang == 'en':
+        return ordinal_en(d)
+    if lang in ('pt', 'es', 'it'):
+        return '%dº' % d
+    if lang == 'fr':
+        return '1er' if d == 1 else '%d' % d
+    if lang == 'nl':
+        return '%de' % d
+    if lang == 'de':
+        return '%d.' % d
+    return '%d' % d
+
+
 def render_layout(layout, y, m, d, culture):
     names = data('layouts.json')['month_names'].get(culture, {})
     full = names.get('full', MONTHS_EN)
     abbr = names.get('abbr', MONTHS_EN_ABBR)
     fields = {
         'Y': '%04d' % y, 'M': '%d' % m, 'MM': '%02d' % m, 'D': '%d' % d, 'DD': '%02d' % d,
-        'Dord': ordinal_en(d), 'Month': full[m - 1], 'Mon': abbr[m - 1],
+        'Dord': ordinal_en(d), 'DordC': ordinal_local(culture, d), 'Month': full[m - 1], 'Mon': abbr[m - 1],
         'MonthCap': full[m - 1].capitalize(), 'MonCap': abbr[m - 1].capitalize(),
     }
     return layout.format(**fields)
@@ -308,9 +324,14 @@ def draw_c10ish(dec, culture='en-us'):
     """Durations and absolute / reference-anchored ranges; no value oracle here, only the C11 validators."""
     k = dec.choice('c10-kind', 8)
     if k == 0:
-        n = [1, 2, 3, 10, 24, 36, 90, 1000][dec.choice('dur-n', 8)]
         unit = ['second', 'minute', 'hour', 'day', 'week', 'month', 'year'][dec.choice('dur-unit', 7)]
-        lit = 'for %d %s%s' % (n, unit, '' if n == 1 else 's')
+        if dec.choice('dur-decimal', 3) == 0:
+            # decimal magnitudes: one to three decimals, incl. values whose binary form is just below the decimal one
+            n = [1.5, 2.5, 0.5, 1.15, 2.3, 0.29, 4.35, 8.2, 0.125, 1.1, 0.7, 16.4, 12.75, 3.333][dec.choice('dur-dec', 14)]
+            lit = 'for %s %ss' % (('%g' % n), unit)
+        else:
+            n = [1, 2, 3, 10, 24, 36, 90, 1000][dec.choice('dur-n', 8)]
+            lit = 'for %d %s%s' % (n, unit, '' if n == 1 else 's')
     elif k in (1, 2):
         y1, m1, d1 = draw_abs_date(dec)
         y2, m2, d2 = draw_abs_date(dec)
